@@ -34,6 +34,9 @@ KL = '(%s as usize)' % CEIL[0]
 KL2 = '(AddWithOverflow(%s, 2).0 as usize)' % CEIL[0]
 
 
+from .. import rules_i as _I
+
+
 def run(cx):
     cx.not_decided.append('equality with the 3GPP keystream / MAC (functional: depends on ZUC, C08)')
     # ------------------------------------------------------------ EEA3
@@ -61,8 +64,21 @@ def run(cx):
         KS = 'generate_keystream($self.zuc, %s)' % KL
         I = 'each(Range::Range{0, %s})' % KL
         ps = [FR.arg_canon(fn, P, cn, b, 1) for b in FR.calls_of(fn, 'push')]
-        cx.add('I-EEA', 'encrypt/xor', ps == ['BitXor($msg[%s], %s[%s])' % (I, KS, I)] or ps == ['BitXor(%s[%s], $msg[%s])' % (KS, I, I)],
-               'output word i = msg[i] xor keystream[i] for i < ceil(LENGTH/32)', fn.loc(), {'push': ps})
+        # the counter may also run over the key stream itself (`for (i, k) in keys.iter().enumerate()`): it has KL words
+        # (C08 P-SPLIT/generate_keystream/count)
+        I2 = 'each(Range::Range{0, len(%s)})' % KS
+        xor_ok = any(ps == ['BitXor($msg[%s], %s[%s])' % (i_, KS, i_)] or ps == ['BitXor(%s[%s], $msg[%s])' % (KS, i_, i_)] for i_ in (I, I2))
+        inplace = False
+        if not ps:
+            # in place: the key-stream vector itself becomes the result, `ks[i] ^= msg[i]` for i < KL, and is returned
+            T = 'index_mut(%s, %s)' % (KS, I)
+            xs = [(cn.c(norm(P.local(st['lhs']['l'], b, i))), cn.c(norm(P.rvalue(st['rv'], b, i, 0)))) for b, i, st in fn.stmts()
+                  if st['k'] == 'assign' and st['lhs']['p'] == ['deref'] and cn.c(norm(P.rvalue(st['rv'], b, i, 0))).startswith('BitXor(')]
+            rets = [v for _, v in _I.returns(fn, cx.F)]
+            inplace = xs in ([(T, 'BitXor(%s, $msg[%s])' % (T, I))], [(T, 'BitXor($msg[%s], %s)' % (I, T))]) and rets == [KS]
+            xor_ok = inplace
+        cx.add('I-EEA', 'encrypt/xor', xor_ok,
+               'output word i = msg[i] xor keystream[i] for i < ceil(LENGTH/32)%s' % (' (in place in the key-stream vector, which is returned)' if inplace else ''), fn.loc(), {'push': ps})
         # trailing-bit mask
         masks = []
         for b, i, st in fn.stmts():
@@ -76,7 +92,12 @@ def run(cx):
             any(c in ('Ne(Rem($ilen, 32), 0)=otherwise', 'Ne(Rem($ilen, 32), 0)=1', 'Eq(Rem($ilen, 32), 0)=0') for c in masks[0][1])
         cx.add('I-EEA', 'encrypt/mask', okm, 'bits beyond LENGTH are cleared in the last word with mask 0xffffffff << (32 - LENGTH%32), only when LENGTH%32 != 0', fn.loc(), {'masks': masks})
         im = [FR.arg_canon(fn, P, cn, b, 1) for b in FR.calls_of(fn, 'index_mut')]
-        cx.add('I-EEA', 'encrypt/mask-word', im == [LASTW], 'the masked word is the last output word', fn.loc(), {'index': im})
+        if inplace and I in im:
+            im.remove(I)
+        tgt = [cn.c(norm(P.local(st['lhs']['l'], b, i))) for b, i, st in fn.stmts() if st['k'] == 'assign' and st['lhs']['p'] == ['deref']
+               and cn.c(norm(P.rvalue(st['rv'], b, i, 0))).startswith('BitAnd(')]
+        lastmut = not im and len(tgt) == 1 and tgt[0].startswith('last_mut(') and tgt[0].endswith(')!') and bool(ps)
+        cx.add('I-EEA', 'encrypt/mask-word', im == [LASTW] or lastmut, 'the masked word is the last output word', fn.loc(), {'index': im})
     # ------------------------------------------------------------ EIA3
     fn = cx.fn('<impl eia::EIA>::new')
     if fn is not None:
